@@ -27,6 +27,7 @@ type pkCase struct {
 	PrecW, PrecH                         int // 0 = default (2^15)
 	TermAll                              bool
 	Big                                  bool // contributions above 65535 bytes allowed (outside the round-trip statement)
+	Light                                bool // small tile with short contributions: cheap enough for the model
 	Seed                                 uint64
 }
 
@@ -36,7 +37,8 @@ type tile struct {
 	ppx     []uint8 // per resolution, only with custom precincts
 	ppy     []uint8
 	blocks  []tileBlk
-	multi   bool // some (comp, res) has more than one precinct with blocks
+	multi   bool                        // some (comp, res) has more than one precinct with blocks
+	mutOrd  func(map[int]map[int][]int) // optional: damages the precinct order handed to gatherCBData
 	maxData int
 }
 
@@ -118,6 +120,16 @@ func genPkCase(r *Rand, i int, maxBlocks int) pkCase {
 		}
 	}
 	k.Big = i%40 == 7
+	if i%3 != 0 && !k.Big { // correspondence class
+		k.Light = true
+		maxBlocks = min(maxBlocks, 40)
+		if r.Intn(4) != 0 {
+			k.W, k.H = r.Range(1, 48), r.Range(1, 48)
+		}
+	}
+	if k.Big { // contributions of 65535..70000 bytes: a tiny tile, so that the model can follow
+		k.W, k.H, k.Levels, k.NC, k.NL = r.Range(1, 8), r.Range(1, 8), r.Range(0, 1), 1, r.Range(1, 2)
+	}
 	for countBlocks(k)*k.NC > maxBlocks {
 		if k.CBW < 64 {
 			k.CBW *= 2
@@ -142,7 +154,7 @@ func buildTile(k pkCase) *tile {
 	t := &tile{k: k}
 	t.pw, t.ph, t.ppx, t.ppy = precinctSizes(k)
 	r := NewRand(k.Seed)
-	o := blkOpts{L: k.NL, TermAll: k.TermAll, BigData: k.Big, MaxBig: 4}
+	o := blkOpts{L: k.NL, TermAll: k.TermAll, BigData: k.Big, MaxBig: 3, Light: k.Light}
 	for comp := 0; comp < k.NC; comp++ {
 		global := 0
 		for res := 0; res <= k.Levels; res++ {
@@ -407,6 +419,9 @@ func (t *tile) decodeStr(data []byte, strict, resilient bool) (impl string, pani
 	k := t.k
 	if p, msg := Safely(func() {
 		tdOrder = t2.VerifTilePrecinctOrder(k.W, k.H, 0, 0, k.Levels, k.CBW, k.CBH, t.ppx, t.ppy)
+		if t.mutOrd != nil {
+			t.mutOrd(tdOrder)
+		}
 		var g string
 		g, maps = gatherStr(k.NC, tdOrder, pk)
 		impl = fmt.Sprintf("ok:%s@%s", decPacketsStr(pk), g)
@@ -427,13 +442,37 @@ func (t *tile) modelDecode(c *Ctx, data []byte, strict, resilient bool, pd *t2.P
 	if k.TermAll {
 		style = "4"
 	}
-	return c.M.Call("t2_pk_dec", Hex(data), fmt.Sprint(k.Prog), fmt.Sprint(k.NL), fmt.Sprint(k.Levels+1), fmt.Sprint(k.NC), bounds, sampling, prec,
+	return mcall(c, "t2_pk_dec", Hex(data), fmt.Sprint(k.Prog), fmt.Sprint(k.NL), fmt.Sprint(k.Levels+1), fmt.Sprint(k.NC), bounds, sampling, prec,
 		dpidx, dgeo, style, b01(strict), b01(resilient), orderArg(k.NC, tdOrder))
+}
+
+// unsupportedProgressions: orders outside 0..4 are an error on both sides.
+func unsupportedProgressions(c *Ctx) {
+	for _, prog := range []int{5, 6, 255, -1} {
+		k := pkCase{W: 9, H: 7, Levels: 1, CBW: 4, CBH: 4, NC: 1, NL: 2, Prog: prog, Light: true, Seed: 77}
+		t := buildTile(k)
+		_, _, bad := t.encode()
+		impl := "ok"
+		if strings.HasPrefix(bad, "error") {
+			impl = "err"
+		} else if bad != "" {
+			impl = "panic"
+		}
+		bounds, sampling, prec := t.geomArgs()
+		in := map[string]interface{}{"case": k}
+		c.R.Case(fmt.Sprintf("pk:unsupported:%d", prog), false, "pk.unsupported_progression")
+		c.CorrEq("t2:packets:enc", "t2:packets:enc:unsupported", mcall(c, "t2_pk_enc", fmt.Sprint(k.Prog), fmt.Sprint(k.NL), fmt.Sprint(k.Levels+1), fmt.Sprint(k.NC),
+			bounds, sampling, prec, t.cellsArg()), impl, in)
+		data := []byte{0x80, 0x00, 0x12}
+		dimpl, _, pd, _, tdOrder := t.decodeStr(data, false, false)
+		c.CorrEq("t2:packets:dec", "t2:packets:dec:unsupported", t.modelDecode(c, data, false, false, pd, tdOrder), dimpl, in)
+	}
 }
 
 func suitePackets(c *Ctx) {
 	rng := c.Rng.Fork()
-	refs := caseRefs(c, rng, c.N(900, 20000), "t2:packets:rt", "t2:packets:enc", "t2:packets:dec")
+	unsupportedProgressions(c)
+	refs := caseRefs(c, rng, c.N(1000, 12000), "t2:packets:rt", "t2:packets:enc", "t2:packets:dec")
 	n := len(refs)
 	ParallelFor(n, c.Work, func(i int) {
 		lim := 120
@@ -459,7 +498,7 @@ func suitePackets(c *Ctx) {
 		if i < 2 {
 			c.R.Sample(map[string]interface{}{"suite": "t2:packets", "case": k, "blocks": len(t.blocks)})
 		}
-		small := len(t.blocks) <= 130
+		small := false // correspondence only when the list-based model can answer quickly
 
 		pk, data, bad := t.encode()
 		if bad != "" {
@@ -467,10 +506,16 @@ func suitePackets(c *Ctx) {
 			c.R.Fail("oracle", "t2:packets:rt", "t2:packets:rt:"+prog+":encode-"+strings.SplitN(bad, ":", 2)[0], bad, in)
 			if small {
 				bounds, sampling, prec := t.geomArgs()
-				c.CorrEq("t2:packets:enc", "t2:packets:enc:"+prog, c.M.Call("t2_pk_enc", fmt.Sprint(k.Prog), fmt.Sprint(k.NL), fmt.Sprint(k.Levels+1), fmt.Sprint(k.NC),
+				c.CorrEq("t2:packets:enc", "t2:packets:enc:"+prog, mcall(c, "t2_pk_enc", fmt.Sprint(k.Prog), fmt.Sprint(k.NL), fmt.Sprint(k.Levels+1), fmt.Sprint(k.NC),
 					bounds, sampling, prec, t.cellsArg()), strings.SplitN(bad, ":", 2)[0][:3], in)
 			}
 			return
+		}
+		small = t.modelCheap(c, len(data))
+		if !small {
+			c.R.Count("pk.corr_skipped_cost")
+		} else if t.multi {
+			c.R.Count("pk.corr_multi_precinct")
 		}
 		endsFF := false
 		for _, p := range pk {
@@ -483,7 +528,7 @@ func suitePackets(c *Ctx) {
 		}
 		if small {
 			bounds, sampling, prec := t.geomArgs()
-			c.CorrEq("t2:packets:enc", "t2:packets:enc:"+prog, c.M.Call("t2_pk_enc", fmt.Sprint(k.Prog), fmt.Sprint(k.NL), fmt.Sprint(k.Levels+1), fmt.Sprint(k.NC),
+			c.CorrEq("t2:packets:enc", "t2:packets:enc:"+prog, mcall(c, "t2_pk_enc", fmt.Sprint(k.Prog), fmt.Sprint(k.NL), fmt.Sprint(k.Levels+1), fmt.Sprint(k.NC),
 				bounds, sampling, prec, t.cellsArg()), encPacketsStr(pk, data), in)
 		}
 
@@ -577,4 +622,40 @@ func firstDiff(a, b []byte) int {
 		}
 	}
 	return min(len(a), len(b))
+}
+
+// modelCheap: the extracted decoder walks the whole remaining tile data for every included
+// block (zlen, comma_fuel) and evaluates the precinct position key for every pair of
+// precincts in the position-driven progressions; correspondence runs only where that stays
+// within a fraction of a second.
+func (t *tile) modelCheap(c *Ctx, dataLen int) bool {
+	incl := 0
+	perCR := map[[2]int]map[int]bool{}
+	for i := range t.blocks {
+		b := &t.blocks[i]
+		prev := 0
+		for _, lp := range b.LayerPasses {
+			if lp > prev {
+				incl++
+			}
+			prev = lp
+		}
+		key := [2]int{b.Comp, b.Res}
+		if perCR[key] == nil {
+			perCR[key] = map[int]bool{}
+		}
+		perCR[key][b.Pidx] = true
+	}
+	maxP := 0
+	for _, m := range perCR {
+		maxP = max(maxP, len(m))
+	}
+	limCost, limP := 300000, 10
+	if c.Thor {
+		limCost, limP = 2000000, 30
+	}
+	if t.k.Big {
+		limCost = 2000000
+	}
+	return incl*dataLen <= limCost && (t.k.Prog < 2 || maxP <= limP)
 }
